@@ -112,3 +112,10 @@ Proof. intros Hwf Hl. rewrite scan_layout by done. rewrite read_by_pass. by appl
 Theorem read_text_layout name text g0 ls : codes text = render_layout g0 ls → wfb (lines_of ls) = true → layouts_ok g0 ls →
   bench_read_text name text = Ok (bench_closed name (lines_of ls)).
 Proof. intros Ht Hwf Hl. unfold bench_read_text, bench_scan. rewrite Ht. by apply read_scan_layout. Qed.
+
+(* ... also when the text ends in a comment that no newline terminates *)
+Theorem read_text_layout_fin name text g0 ls fin : codes text = render_layout_fin g0 ls fin → wfb (lines_of ls) = true → layouts_ok g0 ls → fin_ok fin →
+  bench_read_text name text = Ok (bench_closed name (lines_of ls)).
+Proof.
+  intros Ht Hwf Hl Hf. unfold bench_read_text, bench_scan. rewrite Ht, scan_layout_fin by done. rewrite read_by_pass. by apply read_is_closed_form.
+Qed.
